@@ -191,10 +191,33 @@ RegOf(ms) == IF ms = <<>> THEN <<>>
              ELSE (IF Head(ms).g THEN RegOf(Head(ms).sub) \o << [n |-> Head(ms).n, sub |-> Head(ms).sub] >> ELSE <<>>) \o RegOf(Tail(ms))
 RegSeq(X) == RegOf(Members(X, X.hdr)) \o RegOf(Members(X, X.trl))
              \o SeqCat([i \in DOMAIN X.msgs |-> RegOf(Members(X, X.msgs[i].items))])
+\* The code's table since the repair of the hash-identity defect ("hash_probe"): per count field an open-addressed map
+\* from 32-bit key to definition.  A definition starts at its structural hash and moves up one key at a time past
+\* every slot held by a *different* definition (same_group = equal definitions); it is entered at the first free slot
+\* or shares the equal definition it meets.  "hash_probe_once" is the tempting simplification that looks only once.
+UInc(a) == IF a.l = H16 - 1 THEN U((a.h + 1) % H16, 0) ELSE U(a.h, a.l + 1)
+RECURSIVE ProbeKey(_, _, _, _, _)
+ProbeKey(once, tab, n, ms, k) ==
+    IF \E t \in tab : t.n = n /\ t.key = k /\ t.sub # ms
+    THEN (IF once THEN UInc(k) ELSE ProbeKey(once, tab, n, ms, UInc(k)))
+    ELSE k
+RECURSIVE ProbeTab(_, _, _)
+ProbeTab(once, reg, i) ==
+    IF i = 0 THEN {}
+    ELSE LET tab == ProbeTab(once, reg, i - 1)
+             k == ProbeKey(once, tab, reg[i].n, reg[i].sub, GroupHash(reg[i].sub))
+         IN IF \E t \in tab : t.n = reg[i].n /\ t.key = k THEN tab
+            ELSE tab \cup {[n |-> reg[i].n, key |-> k, sub |-> reg[i].sub]}
 \* the definition whose traits an occurrence (count field n, members ms) is given
 Winner(D, X, n, ms) ==
-    LET reg == RegSeq(X)
-        first == CHOOSE i \in DOMAIN reg : /\ reg[i].n = n /\ Key(D, reg[i].sub) = Key(D, ms)
+    LET reg == RegSeq(X) IN
+    IF D \cap {"hash_probe", "hash_probe_once"} # {} THEN
+        LET once == "hash_probe_once" \in D
+            tab == ProbeTab(once, reg, Len(reg))
+            k == ProbeKey(once, tab, n, ms, GroupHash(ms))
+        IN (CHOOSE t \in tab : t.n = n /\ t.key = k).sub
+    ELSE
+    LET first == CHOOSE i \in DOMAIN reg : /\ reg[i].n = n /\ Key(D, reg[i].sub) = Key(D, ms)
                                            /\ \A j \in 1..(i - 1) : ~(reg[j].n = n /\ Key(D, reg[j].sub) = Key(D, ms))
     IN reg[first].sub
 \* members as the generated code presents them: a group's traits are its winner's, recursively
